@@ -40,8 +40,8 @@ type Op struct {
 	Kind     string   `json:"kind"`
 	Accounts []int    `json:"accounts"` // indices into Plan.Kinds (distinct within an op)
 	Slot     uint64   `json:"slot"`
-	Seed     uint64   `json:"seed"`               // message content
-	Indices  []uint64 `json:"indices,omitempty"`  // committee / subcommittee index per account
+	Seed     uint64   `json:"seed"`              // message content
+	Indices  []uint64 `json:"indices,omitempty"` // committee / subcommittee index per account
 	// faults
 	Domain   env.Outcome   `json:"domain"`              // the node's answer to the domain request
 	SignKind string        `json:"sign_kind,omitempty"` // "" | error | zero | lat
@@ -57,7 +57,7 @@ type Plan struct {
 	// client; account i is used by client i%Clients only, so that a signer-side
 	// request is attributable to the op its client is executing.
 	Clients int  `json:"clients"`
-	Ops   []Op     `json:"ops"`
+	Ops     []Op `json:"ops"`
 }
 
 var opKinds = []string{
